@@ -214,6 +214,22 @@ def conflict(kind):
     return inj
 
 
+def conflict_spelling(kind):
+    """the same output file designated through two spellings of its directory (relative, absolute via {{.ConfigDir}}, with ./ and x/..)"""
+    def inj(files, cfg, level):
+        cfg["filename"] = "all_mocks.go"
+        cfg["pkgname"] = "shared"
+        cfg["force-file-write"] = True   # with overwriting enabled nothing but the conflict check stands between the two mocks and one lost file
+        spell = {"rel-abs": ("shared", "{{.ConfigDir}}/shared"), "dot": ("shared", "./shared/"), "updown": ("shared", "shared/x/..")}[kind]
+        cfg["dir"] = spell[0]
+        for k in (MOD + "/p3",):
+            cfg["packages"].setdefault(k, {"config": {"all": True}})
+        cfg["packages"].setdefault(MOD + "/p2", {"config": {"all": True}})
+        cfg["packages"][MOD + "/p2"].setdefault("config", {})["dir"] = spell[1]
+        cfg["packages"].pop(MOD + "/p3", None)
+    return inj
+
+
 def inj_no_packages(files, cfg, level):
     cfg.pop("packages")
 
@@ -333,6 +349,9 @@ INVALID = {
     "templated-value-div-zero": (["root", "cfg"], inj_tmpl_divzero),
     "templated-value-unknown-func": (["root", "iface"], inj_tmpl_unknown_func),
     "one-file-two-source-packages": (["root"], conflict("srcpkg")),
+    "one-file-two-source-packages-relative-vs-absolute-dir": (["root"], conflict_spelling("rel-abs")),
+    "one-file-two-source-packages-dot-slash-dir": (["root"], conflict_spelling("dot")),
+    "one-file-two-source-packages-updown-dir": (["root"], conflict_spelling("updown")),
     "one-file-two-pkgnames": (["root"], conflict("pkgname")),
     "one-file-two-templates": (["root"], conflict("template")),
     "no-packages-key": (["root"], inj_no_packages),
